@@ -20,6 +20,7 @@ PoolFromFile == {Scen.pool[i][1] : i \in DOMAIN Scen.pool}
 PoolValFromFile == [c \in PoolFromFile |-> (CHOOSE i \in DOMAIN Scen.pool : Scen.pool[i][1] = c) ]
 PoolValOf == [c \in PoolFromFile |-> Scen.pool[PoolValFromFile[c]][2]]
 TrunkFromFile == Scen.trunk
+MaxOrphansFromFile == Scen.max_orphans
 
 VARIABLES l, ended
 tvars == <<tree, n, ndel, last, th, results, l, ended>>
@@ -60,6 +61,19 @@ TScan == /\ l <= Len(Rec) /\ E.k = "Scan"
          /\ E.ok /\ E.cnt = Cardinality(n.u.unspent) /\ E.nl = Len(n.u.outs)
          /\ l' = l + 1 /\ UNCHANGED <<tree, n, ndel, last, th, results, ended>>
 
+\* views that involve the header MMR.  The header MMR is the chain of the HEADER head (it is rewound and
+\* re-applied whenever the header head moves), so "the header at height h" is the ancestor of n.hhead at h, or
+\* an error (-1) above it.  get_header_by_height(h):
+HdrAtOf(h) == IF h <= Height(n.hhead) THEN AncAt(n.hhead, h) ELSE -1
+THdrAt == /\ l <= Len(Rec) /\ E.k = "HdrAt"
+          /\ E.id = HdrAtOf(E.h)
+          /\ l' = l + 1 /\ UNCHANGED <<tree, n, ndel, last, th, results, ended>>
+\* get_header_for_output(c): the creation height of the unspent instance of c (txhashset view) looked up in the
+\* header MMR (header view), both read under ONE pair of read locks, i.e. in one state of the linearisation
+THdrOf == /\ l <= Len(Rec) /\ E.k = "HdrOf"
+          /\ E.id = (IF Live(E.c) = {} THEN -1 ELSE HdrAtOf(CHOOSE h \in Live(E.c) : TRUE))
+          /\ l' = l + 1 /\ UNCHANGED <<tree, n, ndel, last, th, results, ended>>
+
 THead == /\ l <= Len(Rec) /\ E.k = "Head"
          /\ E.head = n.head
          /\ l' = l + 1 /\ UNCHANGED <<tree, n, ndel, last, th, results, ended>>
@@ -73,7 +87,7 @@ TFinal == /\ l <= Len(Rec) /\ E.k = "Final"
           /\ ToSet(E.bodies) = n.bodies /\ ToSet(E.hdrs) = n.hdrs
           /\ l' = l + 1 /\ UNCHANGED <<tree, n, ndel, last, th, results, ended>>
 
-TNext == TSilent \/ TSec \/ TEnd \/ TRead \/ TVtx \/ TScan \/ THead \/ TFinal
+TNext == TSilent \/ TSec \/ TEnd \/ TRead \/ TVtx \/ TScan \/ THead \/ THdrAt \/ THdrOf \/ TFinal
 TSpec == TInit /\ [][TNext]_tvars
 
 \* high-water mark of consumed events (silent steps do not advance l)
